@@ -7,7 +7,7 @@ RULE = ('pairs by angle relation (identical, opposite, orthogonal exactly and +-
         'dot both ways, a.a, is_orthogonal. non-trivial = owned op result differs from its operands')
 TRUSTED = TRUSTED_COMMON
 ASSUMPTIONS = ASSUME_COMMON + ['libm cos enters as the model parameter L; C09_encoding assumes only that the computed value is finite']
-S3_LEGS = ['value = |a||b|cos(delta) within |a||b|(1e-10+16eps), symmetry, bound by |a||b|, a.a = |a|^2: predicates dot_value, scalar_close, dot_self against mpmath']
+S3_LEGS = ['value = |a||b|cos(delta) (C09_value), symmetry (C09_symmetry), bound (C09_bound), a.a = |a|^2 (C09_self) are theorems under cos_acc and finite non-underflowing products; predicates dot_value, scalar_close, dot_self against mpmath decide every generated case incl. those outside these hypotheses']
 
 def generate(rng, tier):
     n = 300 if tier == 'quick' else 8000
